@@ -548,6 +548,7 @@ func (eng *Engine) checkProperty(prop string, timeoutMs int, all_ bool, verbose 
 		// obligations whose failure could not be reported (safety obligations
 		// outside the ledger) are not sent to the solvers
 		ledNow := loadLedger(prop)
+		eng.provedBefore, eng.quietLeft = ledNow, 4
 		all_ := toSolve
 		toSolve = nil
 		for _, o := range all_ {
